@@ -347,13 +347,13 @@ Section Std.
       apply andb_true_iff in Hwf. destruct Hwf as [Hwa Hnoa].
       destruct (enc_alt (uper std) v alts i) as [body|] eqn:Eb; [|discriminate]. injection Hd as <-.
       pose proof (enc_alt_lt _ _ _ _ _ Eb) as Hi.
-      pose proof (choice_index_bound std alts i Hi) as Hcb.
+      pose proof (choice_index_bound (cstd std) alts i Hi) as Hcb.
       cbn [uper_dec]. rewrite <- app_assoc.
       rewrite get_bits_range by exact Hcb.
-      apply (alts_rt alts H (fun j _ => choice_index std alts j =? choice_index std alts i)
+      apply (alts_rt alts H (fun j _ => choice_index (cstd std) alts j =? choice_index (cstd std) alts i)
                i O v body rest Hwa Hnoa Hwt Eb).
       + intros j _ Hj. cbn [Nat.add].
-        destruct (choice_index std alts j =? choice_index std alts i) eqn:E; [|reflexivity].
+        destruct (choice_index (cstd std) alts j =? choice_index (cstd std) alts i) eqn:E; [|reflexivity].
         apply Z.eqb_eq in E. apply choice_index_inj in E; [lia|exact Hkeys|lia|exact Hi].
       + intros _. cbn [Nat.add]. apply Z.eqb_refl.
     - (* EXPLICIT tag: transparent *)
